@@ -19,6 +19,10 @@ CORPUS["C04"].append(("corpus: two readers of one snapshot, one closes, two comm
                       [1, 1, 0, 0, 0, 0, 2, 2, 2, 3, 3, 3, 1, 1], YIELDS_COARSE))
 CORPUS["C04"].append(("corpus: two readers of different ages, the older stays", ["r", "w", "r", "w", "w"],
                       [0, 0, 1, 1, 1, 2, 2, 3, 3, 3, 4, 4, 4, 0, 0, 2, 2], YIELDS_COARSE))
+CORPUS["C04"].append(("corpus: two readers two commits apart, the older stays while two more commits reuse pages", ["r", "w", "w", "r", "w", "w"],
+                      [0, 0, 1, 1, 1, 2, 2, 2, 3, 3, 4, 4, 4, 5, 5, 5, 0, 0, 3, 3], YIELDS_COARSE))
+CORPUS["C04"].append(("corpus: three readers, each two commits after the previous, closed oldest first", ["r", "w", "w", "r", "w", "w", "r", "w", "w"],
+                      [0, 0, 1, 1, 1, 2, 2, 2, 3, 3, 4, 4, 4, 5, 5, 5, 6, 6, 7, 7, 7, 8, 8, 8, 0, 0, 3, 3, 6, 6], YIELDS_COARSE))
 # yield points the model can follow step by step (no parking inside the open_ro_txs critical section)
 YIELDS_MODEL = ["begin:after_lock", "begin:after_freelist", "begin:after_register", "resize:before_wlock", "resize:after_wlock",
                 "resize:after_remap", "commit:before_data", "commit:before_header", "commit:before_sync", "commit:before_publish",
